@@ -11,3 +11,9 @@ open HmcVerif.C01
 #print axioms propose_reversible_boxed_diag_partial
 #print axioms reflect_conserves_kinetic
 #print axioms full_mass_box_not_reversible
+#print axioms HmcVerif.correctorR_img
+#print axioms HmcVerif.correctorR_in_box
+#print axioms HmcVerif.correctorR_eq_reflect1
+#print axioms HmcVerif.cdrift1_reversible_box
+#print axioms HmcVerif.cdrift1_reversible
+#print axioms boxRefl_in_box
